@@ -78,7 +78,7 @@ pub fn gen_witnessed_project(rng: &mut Rng, lang: SupportLang, nodes: &[N], dept
 /// the text of a LATER candidate of the relation with its first named child replaced by a hole, and an EARLIER
 /// candidate of the same kind differs outside that child — it binds the hole and then fails, and nothing of
 /// that attempt may be left when the later candidate is tried.
-pub fn gen_retry_project(rng: &mut Rng, nodes: &[N]) -> Option<(Project, (usize, usize), (usize, usize), String)> {
+pub fn gen_retry_project(rng: &mut Rng, nodes: &[N]) -> Option<(Project, (usize, usize, u16), (usize, usize, u16), String)> {
   for _ in 0..40 {
     let n = rng.pick(nodes).clone();
     if !n.is_named() {
@@ -125,7 +125,7 @@ pub fn gen_retry_project(rng: &mut Rng, nodes: &[N]) -> Option<(Project, (usize,
         },
         _ => String::new(),
       };
-      return Some((Project { rule, utils: vec![], constraints: vec![] }, (n.range().start, n.range().end), (c2.range().start, c2.range().end), p2text));
+      return Some((Project { rule, utils: vec![], constraints: vec![] }, (n.range().start, n.range().end, n.kind_id()), (c2.range().start, c2.range().end, c2.kind_id()), p2text));
     }
   }
   None
@@ -208,7 +208,7 @@ pub fn run_stream(o: &Opts, which: &str) {
         let shared = which == "c04";
         let wc = shared && rng.chance(1, 3);
         let retry = if shared && rng.chance(1, 4) { gen_retry_project(&mut rng, &dc.nodes) } else { None };
-        let mut witness: Option<((usize, usize), (usize, usize), String)> = None;
+        let mut witness: Option<((usize, usize, u16), (usize, usize, u16), String)> = None;
         let p = if let Some((p, nr, cr, p2)) = retry {
           out.count("gen:retry-candidates");
           witness = Some((nr, cr, p2));
@@ -235,10 +235,10 @@ pub fn run_stream(o: &Opts, which: &str) {
         loaded += 1;
         // direct oracle of the retry construction: if the later candidate matches the relation's pattern on a
         // fresh environment, the rule must match the witness node — whatever earlier candidates bound and lost
-        if let Some(((ns, ne), (cs, ce), p2)) = &witness {
+        if let Some(((ns, ne, nk), (cs, ce, ck), p2)) = &witness {
           use ast_grep_core::{Pattern, matcher::MatcherExt as _};
-          let n = dc.nodes.iter().find(|x| x.range().start == *ns && x.range().end == *ne && x.is_named());
-          let c2 = dc.nodes.iter().find(|x| x.range().start == *cs && x.range().end == *ce && x.is_named());
+          let n = dc.nodes.iter().find(|x| x.range().start == *ns && x.range().end == *ne && x.kind_id() == *nk);
+          let c2 = dc.nodes.iter().find(|x| x.range().start == *cs && x.range().end == *ce && x.kind_id() == *ck);
           if let (Some(n), Some(c2), Ok(pat)) = (n, c2, Pattern::try_new(p2, lang)) {
             let alone = c2.dfs().take(1).any(|x| pat.match_node(x).is_some());
             out.checked();
@@ -293,7 +293,17 @@ pub fn run_stream(o: &Opts, which: &str) {
           out.sample(json!({"lang": lang.to_string(), "rule": yaml, "nodes_tried": pick.len()}));
         }
         // reference-semantics oracle (C05): variable-disjoint rules, no constraints, no zero-width nodes
-        if which == "c05" && p.constraints.is_empty() && var_disjoint(&p.objs()) && !zero_width {
+        // the property speaks of `field` names that label at most one child of the inspected parent
+        let fields_unique = {
+          let mut fs = vec![];
+          p.objs().iter().for_each(|o| o.fields(&mut fs));
+          let ts = ast_grep_core::Language::get_ts_language(&lang);
+          fs.iter().all(|f| ts.field_id_for_name(f).map(|id| field_unique(&dc.nodes, id)).unwrap_or(true))
+        };
+        if which == "c05" && !fields_unique {
+          out.count("oracle:out-of-scope(field labels several children)");
+        }
+        if which == "c05" && p.constraints.is_empty() && var_disjoint(&p.objs()) && !zero_width && fields_unique {
           out.checked();
           out.count("oracle:in-scope");
           let class = c05_class(&p);
